@@ -1,6 +1,7 @@
 """C19 - cw20: the three allowance views agree, also after migration."""
 from ..engine import show, OPTION
-from ..idioms import dispatch, entry_points, storage_items, walk, field_of
+from ..idioms import dispatch, entry_points, storage_items, walk, field_of, order_facts
+from .listing import extract, deep_walk
 
 ID = "C19"
 CRATE = "cw20_base"
@@ -9,6 +10,8 @@ NONE = ("variant", OPTION, "None", ())
 RULES = {
     "R19.1": "pairing: on every Ok-path a write to ALLOWANCES[(a,b)] occurs iff the same kind of write to "
              "ALLOWANCES_SPENDER[(b,a)] occurs, with the same value term (for updates: the same function of the old entry)",
+    "R19.1-IH": "induction hypothesis: paths that decide presence of ALLOWANCES[(a,b)] and of ALLOWANCES_SPENDER[(b,a)] differently "
+                "before any write are infeasible from a state in which the views agree and are skipped",
     "R19.2": "no other writers: outside migrate every write to either map is one half of such a pair",
     "R19.3": "views: Allowance reads ALLOWANCES[(owner, spender)]; AllAllowances ranges over ALLOWANCES.prefix(owner) and "
              "AllSpenderAllowances over ALLOWANCES_SPENDER.prefix(spender), each copying allowance/expires field-for-field",
@@ -23,9 +26,33 @@ def norm_old(t):
     """replace the closure argument of an update by a placeholder so that both halves can be compared"""
     if not isinstance(t, tuple):
         return t
-    if t and t[0] == "oldval":
+    if t and t[0] == "may_load" and len(t) == 4 and t[1] in _MAPS:
         return ("OLD",)
     return tuple(norm_old(x) for x in t)
+
+
+_MAPS = []
+
+
+def wkind(e):
+    """update and its unfolded spelling (may_load .. save) are the same kind of write"""
+    return "update" if (e.op == "update" or (e.op == "save" and e.old is not None)) else e.op
+
+
+def pre_state_agrees(p, ALW, ALWS):
+    """induction hypothesis of the pairing rule: before the call ALLOWANCES[(a,b)] and ALLOWANCES_SPENDER[(b,a)] hold the
+    same entry.  A path that decides the two (read before any write to either map) differently - one present, the other
+    absent - cannot be taken from a state where the views agree, so it has nothing to preserve."""
+    seen = {}
+    for c in p.conds:
+        t = c[0]
+        if t[0] == "vfield" and t[2] == "Ok" and t[1][0] == "may_load" and t[1][1] in (ALW, ALWS) and t[1][3] == 0 and c[1] in ("Some", "None"):
+            k = t[1][2] if t[1][1] == ALW else swap(t[1][2])
+            if k is None:
+                continue
+            if seen.setdefault(repr(k), c[1]) != c[1]:
+                return False
+    return True
 
 
 def swap(k):
@@ -44,6 +71,7 @@ def run(ctx):
     if not ctx.ob("R19.1", "anchor:storage namespaces", None not in (ALW, ALWS), trivial=True,
                   detail="storage namespaces allowance/allowance_spender not found"):
         return
+    _MAPS[:] = [ALW, ALWS]
     eps = entry_points(ctx.facts, CRATE)
     pair_sites = set()
     for ename, fn in sorted(eps.items()):
@@ -55,6 +83,8 @@ def run(ctx):
             key = "%s/%s" % (ename, variant)
             for p in ps:
                 if p.is_err():
+                    continue
+                if not pre_state_agrees(p, ALW, ALWS):
                     continue
                 a = [e for e in p.effects if e.kind == "write" and e.item == ALW]
                 b = [e for e in p.effects if e.kind == "write" and e.item == ALWS]
@@ -68,12 +98,12 @@ def run(ctx):
                     for j, f in enumerate(b):
                         if j in used:
                             continue
-                        if f.key == sk and f.op == e.op and norm_old(f.value) == norm_old(e.value) and f.loops == e.loops:
+                        if f.key == sk and (f.op == e.op or wkind(f) == wkind(e)) and norm_old(f.value) == norm_old(e.value) and f.loops == e.loops:
                             m = j
                             break
                     if m is not None:
                         used.add(m)
-                        pair_sites.add((ename, variant, e.op))
+                        pair_sites.add((ename, variant, wkind(e)))
                     ctx.ob("R19.1", key + "/%s in %s" % (e.op, e.site[2]), m is not None, sites=[e.site],
                            detail="ALLOWANCES %s at key %s has no matching ALLOWANCES_SPENDER %s at the swapped key with the "
                                   "same value on this path (spender-side writes: %s)"
@@ -93,33 +123,43 @@ def check_migrate(ctx, p, a, b, ALW, ALWS):
     key = "migrate"
     if a:
         ctx.ob("R19.4", key + "/owner map written", False, detail="migrate writes ALLOWANCES", sites=[e.site for e in a])
-    # every element the rebuild loop takes from the owner map must be saved: an iteration without a save drops that entry
+    # every element taken from the owner map must reach the spender map: an iteration either saves it, or pushes it unchanged
+    # onto a vector that a later loop saves from (collect-then-write); an iteration that does neither drops that entry
+    def over_alw(ent):
+        return any(x[0] == "call" and x[1].endswith("::range") and x[2] and x[2][0] == ALW
+                   for v in ent.value.values() for x in deep_walk(p, v))
     for ent in [e for e in p.effects if e.kind == "loop_enter"]:
-        over_alw = any(x[0] == "call" and x[1].endswith("::range") and x[2] and x[2][0] == ALW for v in ent.value.values() for x in walk(v))
-        if not over_alw:
+        if not over_alw(ent):
             continue
         lk = ent.name
-        took = any(c[0][0] == "calli" and c[0][1] == "next" and c[1] == "Some" and c[0][2][0][0] == "loopvar" and c[0][2][0][1] == lk
-                   and c[0][2][0][3] == 0 for c in p.conds)
-        saved = [f for f in b if f.loops and f.loops[-1] == lk]
-        if took:
-            skip = [(show(c[0])[:100], c[1]) for c in p.conds if c[0][0] in ("cmp", "call", "is") and "next" in show(c[0])]
-            ctx.ob("R19.4", key + "/every iterated entry is copied", bool(saved), sites=[ent.site],
-                   detail="the rebuild loop has an iteration that takes an (owner, spender) entry and saves nothing to the spender map "
-                          "(decisions on that iteration: %s): the entry stays visible to Allowance / AllAllowances but not to "
-                          "AllSpenderAllowances" % skip[:3], sample={"saved": len(saved)})
-    if b:
-        gate = None
-        first = min(p.effects.index(f) for f in b)
+        elem = None
         for c in p.conds:
-            if c[0][0] == "cmp" and c[0][1] in ("lt", "le") and c[1] is True and c[3] <= first:
-                gate = c[0]
+            if c[0][0] == "calli" and c[0][1] == "next" and c[1] == "Some" and c[0][2][0][0] == "loopvar" and c[0][2][0][1] == lk \
+                    and c[0][2][0][3] == 0:
+                elem = ("vfield", c[0], "Some", "0")
+        saved = [f for f in b if f.loops and f.loops[-1] == lk]
+        if elem is not None:
+            stp = [e for e in p.effects if e.kind == "loop_step" and e.name == lk]
+            pushed = False
+            for var, v in (stp[0].value.items() if stp else []):
+                if v[0] == "call" and v[1] == "push" and v[2][0] == ("loopvar", lk, var, 0) and v[2][1] in (elem, ("vfield", elem, "Ok", "0")):
+                    pushed = True
+            skip = [(show(c[0])[:100], c[1]) for c in p.conds if c[0][0] in ("cmp", "call", "is") and "next" in show(c[0])]
+            ctx.ob("R19.4", key + "/every iterated entry is copied", bool(saved) or pushed, sites=[ent.site],
+                   detail="the rebuild loop has an iteration that takes an (owner, spender) entry and neither saves it to the spender map "
+                          "nor passes it on unchanged (decisions on that iteration: %s): the entry stays visible to Allowance / "
+                          "AllAllowances but not to AllSpenderAllowances" % skip[:3], sample={"saved": len(saved), "collected": pushed})
+    if b:
+        first = min(p.effects.index(f) for f in b)
+        gate = None
         good = False
-        if gate is not None:
-            lhs, rhs = gate[2], gate[3]
-            parsed = rhs[0] == "vfield" and rhs[1][0] == "call" and rhs[1][1].endswith("::parse")
-            stored = any(x[0] == "call" and "ensure_from_older_version" in x[1] or (x[0] == "call" and "get_contract_version" in x[1]) for x in walk(lhs))
-            good = parsed and stored and not any(x[0] == "call" and x[1].endswith(("as_str", "to_string")) for x in walk(lhs))
+        for lo, hi, strict, c in order_facts(p.conds, before=first):
+            parsed = hi[0] == "vfield" and hi[1][0] == "call" and hi[1][1].endswith("::parse")
+            stored = any(x[0] == "call" and ("ensure_from_older_version" in x[1] or "get_contract_version" in x[1]) for x in walk(lo))
+            if parsed or stored:
+                gate = c[0]
+            if parsed and stored and not any(x[0] == "call" and x[1].endswith(("as_str", "to_string")) for x in walk(lo)):
+                good = True
         ctx.ob("R19.5", key + "/rebuild gate", good, sites=[b[0].site],
                detail="the rebuild of the spender index is gated by %s, which is not `stored semver version < parsed semver literal`"
                       % (show(gate)[:200] if gate else "no version decision"), sample={"gate": show(gate)[:160] if gate else None})
@@ -134,13 +174,17 @@ def check_migrate(ctx, p, a, b, ALW, ALWS):
             ent = [e for e in p.effects if e.kind == "loop_enter" and e.name == lk]
             coll = None
             for var, v in (ent[0].value.items() if ent else []):
-                for x in walk(v):
+                for x in deep_walk(p, v):
                     if x[0] == "call" and x[1].endswith("::range") and x[2] and x[2][0] == ALW:
                         coll = x
             if coll is None:
                 prob = "rebuild loop does not iterate ALLOWANCES.range(..)"
             elif coll[2][1] != NONE or coll[2][2] != NONE:
                 prob = "rebuild iterates only part of the owner map (bounds %s, %s)" % (show(coll[2][1]), show(coll[2][2]))
+            elif any(x[0] == "call" and x[1].endswith(("Iterator::take", "Iterator::filter", "Iterator::skip", "Iterator::filter_map",
+                                                      "Iterator::take_while", "Iterator::skip_while", "Iterator::step_by"))
+                     for var, v in ent[0].value.items() for x in deep_walk(p, v)):
+                prob = "rebuild iterates a filtered / truncated view of the owner map"
             else:
                 # element = next(iter)?Some.0 ; key must be (elem.0.1, elem.0.0), value elem.1
                 k = f.key
@@ -212,11 +256,11 @@ def check_queries(ctx, eps, ALW, ALWS):
         for p in groups.get(variant, []):
             if p.is_err():
                 continue
-            rng = [x for x in walk(p.ret) if x[0] == "call" and x[1].endswith("::range")]
-            if not rng:
+            L = extract(p)
+            if L is None or L.rng is None:
                 continue
             n += 1
-            r = rng[0]
+            r = L.rng
             pre = r[2][0]
             src = ("vfield", ("param", "msg"), variant, who)
             good = pre[0] == "call" and pre[1].endswith("::prefix") and pre[2][0] == item
@@ -226,27 +270,34 @@ def check_queries(ctx, eps, ALW, ALWS):
             ctx.ob("R19.3", "query/%s/source" % variant, good, detail="%s does not range over %s.prefix(validated %s): %s"
                    % (variant, "ALLOWANCES" if item == ALW else "ALLOWANCES_SPENDER", who, show(r)[:300]),
                    sample={"range": show(r)[:300]})
-            # the mapping closure(s): item.map(|(addr, allow)| Info{other: addr, allowance: allow.allowance, expires: allow.expires})
-            maps = [x for x in walk(p.ret) if x[0] == "call" and x[1].endswith("Iterator::map")]
-            okmap = False
-            why = "no mapping closure found"
-            for m in maps:
-                clos = m[2][1]
+            # what one listed entry is made of: the map closure's Ok result (chain form) or the value the loop pushes
+            produced = []
+            for clos in L.maps:
                 if clos[0] != "closure":
                     continue
-                cps = closure_summary(ctx, clos)
-                for cp in cps or []:
+                for cp in closure_summary(ctx, clos) or []:
                     rv = cp.ret
                     if rv[0] == "variant" and rv[2] == "Ok":
-                        info = rv[3][0][1]
-                        if info[0] == "struct":
-                            f = dict(info[2])
-                            al, ex, ad = f.get("allowance"), f.get("expires"), f.get(other)
-                            if al and ex and ad and al[0] == "field" and al[2] == "allowance" and ex[0] == "field" \
-                                    and ex[2] == "expires" and al[1] == ex[1] and al[1][0] == "field" and al[1][2] == "1" \
-                                    and ad == ("field", al[1][1], "0"):
-                                okmap = True
-                            else:
-                                why = "listing entry is not {%s: key, allowance: entry.allowance, expires: entry.expires}: %s" % (other, show(info)[:300])
-            ctx.ob("R19.3", "query/%s/fields" % variant, okmap, detail=why, sample={"closure": show(maps[0][2][1]) if maps else None})
+                        produced.append(rv[3][0][1])
+            if L.loop is not None:
+                if not L.took:
+                    ctx.ob("R19.3", "query/%s/fields" % variant, True, trivial=True)
+                    continue
+                if L.pushed is not None:
+                    produced.append(L.pushed)
+            okmap = False
+            why = "no listed entry found (neither a mapping closure nor a pushing loop)"
+            for info in produced:
+                if info[0] == "struct":
+                    f = dict(info[2])
+                    al, ex, ad = f.get("allowance"), f.get("expires"), f.get(other)
+                    if al and ex and ad and al[0] == "field" and al[2] == "allowance" and ex[0] == "field" \
+                            and ex[2] == "expires" and al[1] == ex[1] and al[1][0] == "field" and al[1][2] == "1" \
+                            and ad == ("field", al[1][1], "0"):
+                        okmap = True
+                    else:
+                        okmap = False
+                        why = "listing entry is not {%s: key, allowance: entry.allowance, expires: entry.expires}: %s" % (other, show(info)[:300])
+                        break
+            ctx.ob("R19.3", "query/%s/fields" % variant, okmap, detail=why, sample={"entry": show(produced[0])[:200] if produced else None})
         ctx.floor("R19.3", "%s listing paths" % variant, n, 1)
